@@ -8,6 +8,10 @@ tmp="$(mktemp -d /tmp/verif-selftest-all-XXXX)"
   for p in mutants/C*-*.patch; do id="$(basename "$p" | cut -d- -f1)"; echo "$p $id"; done
   for d in seeded/*/; do [ -f "$d/patch.diff" ] && echo "${d}patch.diff $(python3 -c "import json;print(json.load(open('${d}meta.json'))['property'])")"; done
 } > "$tmp/jobs"
+# optional filters: SKIP_IDS / ONLY_IDS are egrep patterns over the property id; OUT overrides the result file
+[ -n "${SKIP_IDS:-}" ] && { grep -Ev " (${SKIP_IDS})$" "$tmp/jobs" > "$tmp/j2"; mv "$tmp/j2" "$tmp/jobs"; }
+[ -n "${ONLY_IDS:-}" ] && { grep -E " (${ONLY_IDS})$" "$tmp/jobs" > "$tmp/j2"; mv "$tmp/j2" "$tmp/jobs"; }
+OUT="${OUT:-mutants/RESULTS.md}"
 export TIER
 xargs -a "$tmp/jobs" -P "$P" -L 1 bash -c 'r=$(./selftest "$0" "$1" "$TIER" 2>&1 | tail -1); echo "| $0 | $1 | $r |"' > "$tmp/out" 2>&1
 {
@@ -21,6 +25,6 @@ xargs -a "$tmp/jobs" -P "$P" -L 1 bash -c 'r=$(./selftest "$0" "$1" "$TIER" 2>&1
   sort "$tmp/out"
   echo
   echo "Totals: $(grep -c CAUGHT "$tmp/out") caught, $(grep -c 'MISSED' "$tmp/out") missed, $(grep -c NOAPPLY "$tmp/out") no-apply, $(grep -c BROKEN "$tmp/out") broken."
-} > mutants/RESULTS.md
+} > "$OUT"
 rm -rf "$tmp"
-tail -1 mutants/RESULTS.md
+tail -1 "$OUT"
